@@ -281,6 +281,24 @@ func checkC02(c C02Case, o *Obs) error {
 	if items[k].err == nil {
 		return fmt.Errorf("corruption %+v of record %d: item %d is a record (name %s, %d bases), want an error", *cr, k, k, gen.Abbrev(items[k].rec.Name), len(items[k].rec.Sequence))
 	}
+	// "never a fabricated record": whatever follows the error item, a record item must be one of
+	// the records of the file (later records may or may not be delivered)
+	for i := k + 1; i < len(items); i++ {
+		if items[i].err != nil || items[i].rec == nil {
+			continue
+		}
+		genuine := false
+		for j := range c.Recs {
+			if sameFastq(items[i], c.Recs[j].Name, seqs[j], quals[j], j) == nil {
+				genuine = true
+				break
+			}
+		}
+		if !genuine {
+			return fmt.Errorf("corruption %+v of record %d: after the error the reader yields a fabricated record (name %s, sequence %s, qualities %s)", *cr, k,
+				gen.Abbrev(items[i].rec.Name), gen.Abbrev(items[i].rec.Sequence), gen.Abbrev(items[i].rec.Quals))
+		}
+	}
 	return nil
 }
 
